@@ -6,7 +6,7 @@ import asyncio
 import datetime as dt
 from typing import Any, Dict, List, Optional
 
-from simnet.core import SimCapExceeded, SimContext, SimDeadlock
+from simnet.core import TAG, SimCapExceeded, SimContext, SimDeadlock
 from simnet.devices import DeviceModel
 
 STATE_QUERIES = ("get_state", "get_shutter_state", "get_breeze_state")
@@ -266,14 +266,12 @@ async def exec_step(cl: Client, st: Dict[str, Any]):
     sim.mark("u%d" % cl.idx, kind)
     try:
         if kind == "connect":
-            sim.next_tag = cl
             await cl.api.connect()
             res = None
         elif kind == "disconnect":
             await cl.api.disconnect()
             res = None
         elif kind == "aenter":
-            sim.next_tag = cl
             r = await cl.api.__aenter__()
             op.extra["returned_self"] = r is cl.api
             res = None
@@ -361,6 +359,7 @@ def run(scn: Dict[str, Any]) -> TcpRun:
             steps_by_client[st.get("client", 0)].append(st)
 
         async def run_client(cl: Client):
+            TAG.set(cl)          # task-local: every socket this client's task (or a child of it) creates is its own
             for st in steps_by_client[cl.idx]:
                 await exec_step(cl, st)
 
@@ -369,7 +368,12 @@ def run(scn: Dict[str, Any]) -> TcpRun:
             tasks = [loop.create_task(run_client(cl), name="client%d" % cl.idx) for cl in out.clients]
             for t in tasks:
                 await t
-            for _ in range(4):
+            # let every stalled peer start reading again, so that whatever a graceful close still has buffered can
+            # be flushed before the final look at the wire
+            pending_stall = max([c.stall_until_us for cl in out.clients for c in cl.conns] + [0]) - sim.mono_us
+            if pending_stall > 0:
+                await asyncio.sleep(pending_stall / 1e6 + 0.01)
+            for _ in range(6):
                 await asyncio.sleep(0)
 
         try:
